@@ -1,7 +1,7 @@
 (* C34 - fused functions dispatch to the matching specialisation.
    Only statements; proofs live in Proof/P_Fused.v.  Model: Model/M_Fused.v. *)
 From Coq Require Import ZArith List Bool Permutation.
-From CyVerif Require Import Model.M_Fused Proof.P_Fused.
+From CyVerif Require Import Model.M_Fused Proof.P_Fused Model.M_FusedArgs Proof.P_FusedArgs.
 Import ListNotations.
 Open Scope Z_scope.
 
@@ -126,6 +126,97 @@ Theorem C34_single_member_wildcard_refuted :
   doc_call d_single [AInt; AFloat] = TypeErr.
 Proof. exact refuted_wildcard. Qed.
 Print Assumptions C34_single_member_wildcard_refuted.
+
+(* ---------- how the dispatcher obtains the dispatched-on value (make_fused_cpdef loop +
+   _unpack_argument; Model/M_FusedArgs.v).  Signatures: any list of parameters (fused or not,
+   positional-only / positional-or-keyword / keyword-only, with or without default, any number of
+   fused types used any number of times) + *args / **kwargs; calls: any positional list and
+   keyword dict.  [wf_sig]: keyword-only parameters last, distinct names (the grammar). ---------- *)
+
+(* each generated block reads the first parameter of its fused type, under its own index and
+   name, and the defaults-tuple slot "number of earlier parameters with a default" *)
+Theorem C34_unpack_blocks : forall (V : Type) (s : fsig V) pl,
+  In pl (plans true s) ->
+  exists p, nth_error (s_params s) (pl_idx pl) = Some p /\ pl_name pl = p_name p /\ pl_kind pl = p_kind p /\
+            p_fused p = Some (pl_ft pl) /\
+            pl_def pl = (if has_default p
+                         then Some (length (defaults_tuple (firstn (pl_idx pl) (s_params s)))) else None).
+Proof. exact plans_spec. Qed.
+Print Assumptions C34_unpack_blocks.
+
+(* FULL STATEMENT (false on the tree for kinds_fix = false, see the two refuted lemmas below):
+     forall s args kwargs vals pl, wf_sig s -> bind_py s args kwargs = Some vals -> In pl (plans true s) ->
+       run_plan false pl ... = FVal (the value CPython binds to parameter pl_idx).
+   Proved: it holds for the repaired block (kinds_fix = true) on every signature and call, and for
+   the block as it is on every call outside the two finding classes ([hazard_free]: a
+   keyword-only dispatched parameter while surplus positionals reach its index; a
+   positional-only one whose name is a **kwargs key). *)
+Theorem C34_fetched_value_is_bound_value : forall (V : Type) kinds_fix (s : fsig V) args kwargs vals pl,
+  wf_sig s = true ->
+  bind_py s args kwargs = Some vals ->
+  In pl (plans true s) ->
+  kinds_fix = true \/ hazard_free pl args kwargs = true ->
+  exists v, nth_error vals (pl_idx pl) = Some v /\
+            run_plan kinds_fix pl args kwargs (defaults_tuple (s_params s)) = FVal v.
+Proof. exact fetch_bound. Qed.
+Print Assumptions C34_fetched_value_is_bound_value.
+
+(* consequently the whole call (fetch, type mapping, signature matching, call of the selected
+   specialisation) is the all-positional dispatcher of the theorems above applied to the values
+   CPython binds to the fused parameters ... *)
+Theorem C34_call_reduces_to_bound_values :
+  forall (V : Type) (tag_of : V -> atag) kinds_fix fastfix idlt mss (s : fsig V) args kwargs vals,
+  wf_sig s = true ->
+  bind_py s args kwargs = Some vals ->
+  kinds_fix = true \/ forallb (fun pl => hazard_free pl args kwargs) (plans true s) = true ->
+  call2_cy tag_of true kinds_fix fastfix idlt mss s args kwargs =
+  call_cy fastfix idlt (decl_of mss s) (fused_vals tag_of (s_params s) vals).
+Proof. exact call2_reduces. Qed.
+Print Assumptions C34_call_reduces_to_bound_values.
+
+(* ... and a call that CPython's binding rejects never runs a specialisation *)
+Theorem C34_unbindable_call_raises :
+  forall (V : Type) (tag_of : V -> atag) ca kinds_fix fastfix idlt mss (s : fsig V) args kwargs sg,
+  bind_py s args kwargs = None -> call2_cy tag_of ca kinds_fix fastfix idlt mss s args kwargs <> Ran sg.
+Proof. exact call2_bind_error. Qed.
+Print Assumptions C34_unbindable_call_raises.
+
+(* the loop variant that counts only the defaults of dispatch-relevant parameters is wrong:
+   f(tag = 7, num_t x = 3) called as f() hands the dispatcher tag's default *)
+Theorem C34_count_relevant_defaults_only_refuted :
+  wf_sig s_seed = true /\ bind_py s_seed [] [] = Some [7; 3]%nat /\
+  (exists pl, plans false s_seed = [pl] /\ hazard_free pl (@nil nat) [] = true /\
+              run_plan true pl [] [] (defaults_tuple (s_params s_seed)) = FVal 7%nat) /\
+  (exists pl, plans true s_seed = [pl] /\ run_plan true pl [] [] (defaults_tuple (s_params s_seed)) = FVal 3%nat).
+Proof. exact count_relevant_only_refuted. Qed.
+Print Assumptions C34_count_relevant_defaults_only_refuted.
+
+(* findings: f( *args, num_t x = 3) called as f(5) dispatches on 5; f(num_t x = 3, /, **kw) called
+   as f(x = 5) dispatches on 5; the bound value is 3 in both; the repaired block fetches 3 *)
+Theorem C34_kwonly_read_from_star_args_refuted :
+  wf_sig s_kwonly = true /\ bind_py s_kwonly [5]%nat [] = Some [3]%nat /\
+  exists pl, plans true s_kwonly = [pl] /\
+             run_plan false pl [5]%nat [] (defaults_tuple (s_params s_kwonly)) = FVal 5%nat /\
+             run_plan true pl [5]%nat [] (defaults_tuple (s_params s_kwonly)) = FVal 3%nat.
+Proof. exact kwonly_from_star_args_refuted. Qed.
+Print Assumptions C34_kwonly_read_from_star_args_refuted.
+
+Theorem C34_posonly_read_from_kwargs_refuted :
+  wf_sig s_posonly = true /\ bind_py s_posonly [] [(0, 5)]%nat = Some [3]%nat /\
+  exists pl, plans true s_posonly = [pl] /\
+             run_plan false pl [] [(0, 5)]%nat (defaults_tuple (s_params s_posonly)) = FVal 5%nat /\
+             run_plan true pl [] [(0, 5)]%nat (defaults_tuple (s_params s_posonly)) = FVal 3%nat.
+Proof. exact posonly_from_kwargs_refuted. Qed.
+Print Assumptions C34_posonly_read_from_kwargs_refuted.
+
+(* non-vacuity of the fetch theorem: def f(a, b = 8, *args, num_t x = 3, **kw) called as f(1, x = 4)
+   binds (1, 8, 4); the only block fetches 4 from the keyword dict *)
+Example C34_fetch_nonvacuous :
+  let s := mkSig [mkParam 0 KPosKw None None; mkParam 1 KPosKw None (Some 8); mkParam 2 KKwOnly (Some 0) (Some 3)]%nat true true in
+  wf_sig s = true /\ bind_py s [1]%nat [(2, 4)]%nat = Some [1; 8; 4]%nat /\
+  exists pl, plans true s = [pl] /\ hazard_free pl [1]%nat [(2, 4)]%nat = true /\
+             run_plan false pl [1]%nat [(2, 4)]%nat (defaults_tuple (s_params s)) = FVal 4%nat.
+Proof. vm_compute. repeat split. eexists. repeat split. Qed.
 
 (* non-vacuity: cython.numeric meets the three conditions for a bool argument and the
    documented choice (long, the biggest int type) comes out *)
